@@ -243,6 +243,7 @@ class ExprMixin:
             except Unknown:
                 pass
         st, base = self.ev(st, e.value)
+        self.none_deref_check(st, e)
         # property read -> call
         for cs in self.cg.sites(fi):
             if cs.node is e and cs.kind == "property":
@@ -352,6 +353,18 @@ class ExprMixin:
                     if (c.qualname, e.attr) in self.cfg.none_fields:
                         return True
         return False
+
+    def none_deref_check(self, st: St, e: ast.Attribute) -> None:
+        if not (self.cfg.none_deref_fields and isinstance(e.value, ast.Attribute)):
+            return
+        bt = self.types.type_of(e.value.value, self.fi)
+        for m in members(bt):
+            if m[0] == "inst" and any((c.qualname, e.value.attr) in self.cfg.none_deref_fields for c in self.prog.mro(m[1])):
+                ba = self.atom_of(e.value)
+                ok = ba is not None and (st.f.has_pred(("notnone", ba)) or st.f.has_pred(("truthy", ba)))
+                self.oblige(st, e, "noneattr", "AttributeError", ok,
+                            f"`{unparse(e.value)}` is None until it has been set up; `.{e.attr}` on it raises AttributeError",
+                            by=f"{ba} is not None on this path")
 
     def _heap_taint_applies(self, e: ast.Attribute) -> bool:
         # attribute-name based heap taint: for message/packet objects (any non-self object, or self inside
